@@ -72,7 +72,6 @@ func buildWPool(c *c13ref.WCurve, stream string, nRandom, nLift int, cof *big.In
 	return out
 }
 
-
 // related picks a pair (P,Q) from the pool with the relations the property
 // names: independent, Q=P, Q=-P, Q=O, P=O, Q=2P, Q=-2P, neighbours k,k+1.
 func relatedW(c *c13ref.WCurve, pool []wpt, r *lib.Rng) (p, q wpt, rel string) {
@@ -98,6 +97,15 @@ func relatedW(c *c13ref.WCurve, pool []wpt, r *lib.Rng) (p, q wpt, rel string) {
 	default:
 		return p, pool[r.Intn(len(pool))], "independent"
 	}
+}
+
+// guarded runs f under lib.Try and turns a panic into a violation keyed by the entry point.
+func guarded(mon, entry string, in []byte, f func()) bool {
+	if pn := lib.Try(entry, in, f); pn != nil {
+		lib.Violation("C13:panic:"+entry, mon, lib.D("input", in, "panic", pn.Value, "frame", pn.TopFrame()))
+		return false
+	}
+	return true
 }
 
 func negK(k, n *big.Int) *big.Int {
